@@ -24,6 +24,17 @@ CLAIMED = {
         ref="DESIGN.md section 4, C07"),
 }
 
+CLAIMED['C06'] = dict(
+    text="Structural necessary conditions, exhaustively over every rule instance: every public modifier mutates the real LP with the LP method of "
+         "its own quantity, forwards its index parameters in order and invalidates the cached solution on every non-aborting path; removal "
+         "wrappers build and forward one permutation of the LP's own dimension; the _...Real helpers keep the stored basis arrays in the index "
+         "domain of the changed quantity and re-derive _hasBasis in the solver-loaded arm; SPxLPBase's storage primitives always mutate the "
+         "row-wise and the column-wise copy together; new data reaches a persistently scaled LP with the LP's own scale flag; the solver's "
+         "overrides forward the same arguments, un-initialise and notify the basis; remapping loops after permutation removals run upwards over "
+         "the old dimension. Not a proof that the containers compute the right LP or that re-solves agree.",
+    technique="CFG must-pass-through, dominance/post-dominance pairing and argument-flow rules over the clang-resolved AST of all modifiers, helpers, LP primitives and solver overrides",
+    ref="DESIGN.md section 4, C06")
+
 NA = {
     'C10': "every clause quantifies over run-time numbers (residuals at rounding level, singular vs. well-conditioned, agreement of multi-rhs solves); "
            "no structural clause is both checkable and necessary (DESIGN.md section 5)",
